@@ -157,4 +157,5 @@ def verify_function(fv):
         for ename, ee in c.ensures:
             g = fv.truthy(fv.ev(ee, rst, True))
             fv.oblige(rst, 'post[%s]' % ename, g, rnode)
+            fv.add_fact(rst, g)
     return fv.obligations
